@@ -45,6 +45,10 @@ func init() {
 			"\t// The descriptor is closed whatever the poller says: it is not going to be used again.\n\t_ = f.ioc.UnsetReadWrite(&f.slot)\n", "\tif err := f.ioc.UnsetReadWrite(&f.slot); err != nil {\n\t\treturn err\n\t}\n", "C13-R2"},
 		mutant{"socket close keeps its descriptor number", "socket.go",
 			"\t\terr = syscall.Close(s.fd)\n\t\ts.fd = -1", "\t\terr = syscall.Close(s.fd)", "C13-R2"},
+		mutant{"timer forgets it is closed when close(2) fails", "timer.go",
+			"\t\tt.state = stateClosed\n\t\tdelete(t.ioc.pendingTimers, t)\n\t}\n\treturn", "\t\tif err == nil {\n\t\t\tt.state = stateClosed\n\t\t\tdelete(t.ioc.pendingTimers, t)\n\t\t}\n\t}\n\treturn", "C13-R2"},
+		mutant{"handler deregisters after the completion", "file.go",
+			"func (r *fileReadReactor) onRead(err error) {\n\tr.file.ioc.Deregister(&r.file.slot)\n", "func (r *fileReadReactor) onRead(err error) {\n\tdefer r.file.ioc.Deregister(&r.file.slot)\n", "C13-R3"},
 		mutant{"scheduled write is not registered with the IO", "async_adapter.go",
 			"\tif err := a.ioc.SetWrite(&a.slot); err != nil {\n\t\tcb(err, writtenBytes)\n\t} else {\n\t\ta.ioc.Register(&a.slot)\n\t}", "\tif err := a.ioc.SetWrite(&a.slot); err != nil {\n\t\tcb(err, writtenBytes)\n\t}", "C13-R3"},
 		mutant{"Deregister drops a slot that still has an operation in flight", "io.go",
@@ -178,6 +182,23 @@ func runC13(c *Ctx) {
 				return false
 			})
 			c.check(okp, fn, "reaches close(2)", f.Pos(), "every path past the once-guard closes the descriptor", "after the once-guard has been passed (and can never be passed again) a path returns without closing the descriptor: "+why)
+			// the guard must really be passed only once: when it is a test of a field, that field is given its excluding value on
+			// every path that reaches the close(2) - whatever close(2) reports, the descriptor number is gone (munmap is different:
+			// a failed munmap leaves the mapping in place)
+			if strings.HasPrefix(kind, "test of ") && !isCallTo(f, munmap) {
+				fld := guardField(*g)
+				if fld != nil {
+					stored, whyS := mustPassAt(edge, 0, func(in ssa.Instruction) bool {
+						st, ok := in.(*ssa.Store)
+						if !ok {
+							return false
+						}
+						fv, _ := fieldAddrOf(st.Addr)
+						return fv == fld
+					})
+					c.check(stored, fn, "guard flag always set", f.Pos(), "the closed state is recorded on every path that closes the descriptor", "the closed state ("+fld.Name()+") is not recorded on every path past the guard ("+whyS+"): if close(2) - or the delegate that always closes - reports an error, a second "+cl.method+" closes the same descriptor number again, which may belong to another object by then")
+				}
+			}
 		}
 	}
 
@@ -216,6 +237,60 @@ func runC13(c *Ctx) {
 				c.check(okp, fn, "registration "+e.regDir(in), in.Pos(), "the slot is registered with the IO on the success edge", "a successfully parked operation does not register its slot with the IO: an object the program drops can be collected while the kernel still points at its slot ("+why+")")
 			}
 		})
+	}
+	// handlers drop the slot before they complete or retry the operation: Deregister is keyed by descriptor number, so a late
+	// Deregister (after a callback that closed the object and created another one on the same number) drops the newcomer's slot
+	{
+		dereg := p.Method("sonic", "IO", "Deregister")
+		seenH := map[*ssa.Function]bool{}
+		for _, fn := range p.Funcs {
+			pk, tn := recvTypeName(fn)
+			if !c14Owners[pk+"."+tn] {
+				continue
+			}
+			for _, call := range callsTo(fn, e.slotSet) {
+				hf, _, _ := handlerFunction(p, call.Common().Args[2])
+				if hf == nil || seenH[hf] {
+					continue
+				}
+				seenH[hf] = true
+				c.touch(hf)
+				var deregs []ssa.Instruction
+				eachInstr(hf, func(in ssa.Instruction) {
+					if _, isCall := in.(*ssa.Call); isCall && isCallToFn(in, dereg) {
+						deregs = append(deregs, in)
+					}
+				})
+				good := len(deregs) > 0
+				eachInstr(hf, func(in ssa.Instruction) {
+					cc, ok := in.(*ssa.Call)
+					if !ok || isCallToFn(in, dereg) {
+						return
+					}
+					completes := isDynamicFuncCall(cc)
+					if callee := cc.Call.StaticCallee(); callee != nil && e.inScope(callee) {
+						for _, a := range cc.Call.Args {
+							if _, isSig := a.Type().Underlying().(*types.Signature); isSig {
+								completes = true
+							}
+						}
+					}
+					if !completes {
+						return
+					}
+					dom := false
+					for _, d := range deregs {
+						if dominatesInstr(d, in) {
+							dom = true
+						}
+					}
+					if !dom {
+						good = false
+					}
+				})
+				c.check(good, hf, "deregister first", hf.Pos(), "the slot is dropped before the completion runs", "the handler does not deregister its slot before it completes or retries the operation (e.g. deferred): a callback that closes the object and opens another one on the same descriptor number has its registration dropped, and the new object can be collected with an operation in flight")
+			}
+		}
 	}
 	{
 		dereg := p.Method("sonic", "IO", "Deregister")
@@ -296,4 +371,15 @@ func onceGuard(fn *ssa.Function, f ssa.Instruction) (*Lit, string) {
 		}
 	}
 	return nil, ""
+}
+
+// guardField: the field a once-guard literal tests.
+func guardField(l Lit) *types.Var {
+	if _, x, y, ok := l.cmp(); ok {
+		if fv := loadedField(x); fv != nil {
+			return fv
+		}
+		return loadedField(y)
+	}
+	return loadedField(l.Cond)
 }
